@@ -414,6 +414,37 @@ def run(ctx):
     ok = any([norm(a) for a in c.args] == ["v", func_params(opfn)[2]] or len(c.args) == 2 and norm(c.args[1]) == func_params(opfn)[2] for c in calls)
     ctx.check(ok, "R7.5", "TypeMatcherInstance._op:application", "op is not applied as op(value, other)", opfn, "op(value, other)")
 
+    # helper functions decide "equals" with ==, as Python would for the expression they stand for: membership in a HASH container (set /
+    # frozenset / dict) asks hash() first - values that compare equal to a string but hash differently (ip addresses) or are unhashable
+    # (paths, lists) then give another answer or raise
+    wl7 = prog.fold(sel, ast.parse("FUNCTION_WHITELIST").body[0].value)
+    n_h = 0
+    for ref in wl7:
+        if not (isinstance(ref, DefRef) and isinstance(ref.node, ast.FunctionDef)):
+            continue
+        hf = ref.node
+        n_h += 1
+        defs7 = {}
+        for st in walk_no_nested(hf):
+            if isinstance(st, ast.Assign) and len(st.targets) == 1 and isinstance(st.targets[0], ast.Name):
+                defs7.setdefault(st.targets[0].id, []).append(st.value)
+
+        def hashy(e, depth=0):
+            if isinstance(e, (ast.Set, ast.SetComp, ast.Dict, ast.DictComp)):
+                return True
+            if isinstance(e, ast.Call) and call_name(e) in ("set", "frozenset", "dict"):
+                return True
+            if isinstance(e, ast.Name) and depth < 3:
+                return any(hashy(v, depth + 1) for v in defs7.get(e.id, []))
+            return False
+
+        for cmp_ in [n for n in ast.walk(hf) if isinstance(n, ast.Compare) and len(n.ops) == 1 and isinstance(n.ops[0], (ast.In, ast.NotIn))]:
+            if hashy(cmp_.comparators[0]):
+                ctx.fail("R7.5", f"{hf.name}:hash-membership", f"`{norm(cmp_)}` decides a match by hashing the field value: values that equal a string without hashing like it "
+                         "(net.ipaddress) silently do not match and unhashable values (path, lists) raise, where `==` gives the Python answer", cmp_,
+                         key=f"R7.5:{hf.name}:hash-membership")
+    ctx.ok("R7.5", "helpers:equality-by-==", f"{n_h} helper functions: no membership test against a hash container", None)
+
     # ------------------------------------------------------------------ R7.6 namespace agreement (informational + wiring)
     ctx.rule("R7.6", "the compiled engine evaluates the expression text unchanged with Python's eval in a namespace holding "
                      "the helper functions, `net`, `r` (wrapped record) and `Type`; differences to the interpreted namespace are listed")
